@@ -6,6 +6,16 @@
 // (in-process: copy of the data directory at that instant; child mode: real
 // SIGKILL at that point; thorough: SIGKILL at random instants) that is opened
 // afresh and checked against the model states before/after the primitive.
+//
+// Second family: the REAL chainimport import (files of PoW-valid generated
+// chains, made by internal/c14) runs against the real stores with the same
+// crash hooks; every crash point the hooks announce during Import yields an
+// image, which must recover to a durable-step boundary of the import, hold
+// only headers of the file, and let the SAME import be re-run to completion.
+//
+// "Syncing resumes": on every crash image of both families the real block
+// manager is constructed on the reopened stores and handed one valid next
+// header, which must become the new block tip.
 package main
 
 import (
@@ -25,6 +35,7 @@ import (
 	"github.com/btcsuite/btcd/chaincfg/v2"
 
 	"verif/internal/c08"
+	"verif/internal/c14"
 	"verif/internal/evid"
 )
 
@@ -33,6 +44,10 @@ var (
 	childOps  = flag.Int("child-ops", 0, "child mode: number of ops")
 	childKill = flag.Int("child-kill", -1, "child mode: SIGKILL self at this crash point (-1: run to the end, parent kills)")
 	childDir  = flag.String("child-dir", "", "child mode: data directory")
+
+	childImpDir    = flag.String("child-import-dir", "", "import child mode: prepared data directory (stores pre-filled, import files written)")
+	childImpPreset = flag.Int("child-import-preset", 0, "import child mode: chain parameter preset")
+	childImpBatch  = flag.Int("child-import-batch", 0, "import child mode: write batch size")
 )
 
 func params() *chaincfg.Params { p := chaincfg.RegressionNetParams; return &p }
@@ -64,6 +79,20 @@ func child() {
 	os.Exit(0)
 }
 
+// importChild runs the real import in a directory the parent prepared, with
+// the crash hooks installed, and SIGKILLs itself at crash point -child-kill.
+func importChild(seed int64) {
+	prep := &c08.ImportPrep{Dir: *childImpDir, Params: c14.WorldParams(seed, *childImpPreset),
+		BPath: filepath.Join(*childImpDir, "import-block-headers.bin"),
+		FPath: filepath.Join(*childImpDir, "import-filter-headers.bin"), Batch: *childImpBatch}
+	_, _, err, pan := c08.RunImportCrashing(prep, *childKill, "", nil)
+	if err != nil || pan != "" {
+		fmt.Fprintln(os.Stderr, "import child:", err, pan)
+		os.Exit(4)
+	}
+	os.Exit(0)
+}
+
 type pointRec struct {
 	op            c08.Op
 	pt            c08.Point
@@ -76,11 +105,23 @@ func main() {
 		child()
 		return
 	}
-	r.Rule("seeded scripts (appends of 1-220 block headers, filter-header batches shaped like writeCFHeadersMsg, single and multi-header rollbacks, reorganisation composites = per block [filter rollback, block rollback], first new header alone, rest as batch) on the real stores sharing one bbolt DB; for EVERY primitive EVERY crash point is taken: before/after each flat-file write, torn at 1 byte / record-1 / one record of a longer batch / record+1 / total-1, after each file truncate, after each index commit; each crash image is opened like a restarting client and must (1) open, (2) hold exactly the entries from before or after the primitive in each store, (3) have whole-record files agreeing with the tips, (4) have by-hash lookups agreeing and no stale entries, (5) keep filter tip <= block tip, (6) accept appends that land at the right heights. distinct = (primitive kind @ composite, crash-point class); non-trivial = every image (each is a distinct on-disk state)")
+	if *childImpDir != "" {
+		importChild(r.Seed)
+		return
+	}
+	r.Rule("FAMILY 1: seeded scripts (appends of 1-220 block headers, filter-header batches shaped like writeCFHeadersMsg, single and multi-header rollbacks, reorganisation composites = per block [filter rollback, block rollback], first new header alone, rest as batch) on the real stores sharing one bbolt DB; for EVERY primitive EVERY crash point is taken: before/after each flat-file write, torn at 1 byte / record-1 / one record of a longer batch / record+1 / total-1, after each file truncate, after each index commit; each crash image is opened like a restarting client and must (1) open, (2) hold exactly the entries from before or after the primitive in each store, (3) have whole-record files agreeing with the tips, (4) have by-hash lookups agreeing and no stale entries, (5) keep filter tip <= block tip, (6) let the REAL block manager be constructed on the reopened stores and commit one valid next header handed to its headers handler (tip advances by exactly that header), (7) accept appends that land at the right heights. " +
+		"FAMILY 2: seeded clean header imports (PoW-valid generated chains under 3 parameter presets; start height 0 / effective tip+1 / inside agreeing content; length 5-400; write batch size 1, 2, 7, a divisor, the length; stores pre-filled to block tip 0..120 with the block store ahead of the filter store by 0,1,2,3,5) run through the REAL chainimport import on the real stores with the same crash hooks; EVERY crash point announced during Import is taken; each image must pass (1)-(5) with 'before/after' = the states around the interrupted store call of the importer (so each store holds the pre-import content plus a prefix of the file ending at a durable-step boundary), hold above the prior content only the file's headers, let the block manager be constructed on the crash state, and then RE-RUNNING the same import on the recovered stores must succeed and yield exactly the complete final state, from which (6) and (7) must hold; one image in 4 (seeded) additionally gets (6)-(7) on a second copy of the crash state itself. " +
+		"distinct = (family, primitive / store-call kind @ composite, crash-point class) plus one mark per import shape; non-trivial = every image (each is a distinct on-disk state)")
 	r.Assume("process death model: completed write/truncate syscalls persist, bbolt's own commit is atomic (exercised by the random-instant kills, not enumerated); power-loss reordering is out of reach")
 	r.Assume("scripts obey the callers' contract: filter headers only for stored blocks; on rollback the filter store is rolled back before the block store")
+	r.Assume("import family: only imports that the importer accepts and completes without a crash are crashed (refusals and invalid files are C14's subject); a failed store write needs a fault, not a crash, and is C14's subject too")
+	r.Assume("block manager restart: a never-connected btcd peer stands in for the sender of the one header; the block manager's clock is a fixed instant derived from the chain (tip + 1 h for scripts, the generated chains' reference clock for imports), never the wall clock")
 
 	root := scratch()
+	t0 := time.Now()
+	phase := func(name string) { // evidence only; no verdict depends on it
+		r.Set("wall_s_until_"+name, float64(int(time.Since(t0).Seconds()*10))/10)
+	}
 	tmpl := filepath.Join(root, "c08-template")
 	_ = os.RemoveAll(tmpl)
 	_ = os.MkdirAll(tmpl, 0o755)
@@ -91,16 +132,45 @@ func main() {
 	}
 	c08.CloseAll(db, b, f)
 
-	nScripts, nOps := r.Pick(48, 800), r.Pick(24, 40)
-	nKill := r.Pick(96, 3000)
-	nRandom := r.Pick(0, 600)
+	// Measured (16 cores shared with other jobs, load 15-25): quick 80-95 s,
+	// thorough (280 scripts / 92 imports) 12 min; thorough counts set for <= 25 min.
+	nScripts, nOps := r.Pick(30, 380), r.Pick(24, 40)
+	nKill := r.Pick(64, 2000)
+	nRandom := r.Pick(0, 500)
+	// 2 fixed cases + 20 (quick) seeded ones = every (preset, batch class) pair.
+	nImports, maxBatches := r.Pick(22, 122), r.Pick(12, 20)
+	nKillImp := r.Pick(24, 400)
+	const keepImportRecs = 40 // SIGKILL cases are drawn from the first imports
+	// Every import image gets: block manager constructed on the crash state,
+	// the import re-run, block manager restarted (one header) on the result.
+	// One image in bmCrashStateOneIn (by image index, seeded order) also gets
+	// the one-header restart on a second copy of the crash state itself.
+	const bmCrashStateOneIn = 4
+	bmStats := &c08.BMStats{}
+	bmOpts := &c08.BMOpts{} // scripts: regtest parameters, mined next header, clock = tip + 1 h
 
 	var mu sync.Mutex
 	pointsByScript := map[int64][]pointRec{}
 	workers := min(runtime.NumCPU(), 16)
-	jobs := make(chan int)
 	var wg sync.WaitGroup
+
+	// Image checks of both families run on one pool; the families' producers
+	// (script runs, import runs) only capture images and hand them over.
+	checks := make(chan func(), workers)
+	var cwg sync.WaitGroup
 	for w := 0; w < workers; w++ {
+		cwg.Add(1)
+		go func() {
+			defer cwg.Done()
+			for f := range checks {
+				f()
+			}
+		}()
+	}
+
+	// ---- Family 1: scripts of store primitives ----------------------------
+	jobs := make(chan int)
+	for w := 0; w < min(workers, 6); w++ {
 		wg.Add(1)
 		go func(w int) {
 			defer wg.Done()
@@ -126,7 +196,6 @@ func main() {
 					pts    []c08.Point
 					imgs   []string
 				}
-				rng := rand.New(rand.NewSource(seed ^ 0x5151))
 				nimg := 0
 				run.OnPoint = func(p c08.Point) {
 					// Capture the image now; it is checked once the primitive
@@ -145,18 +214,29 @@ func main() {
 					before, after, err := run.Exec(i, op)
 					if err != nil {
 						r.Violation(evid.Sig("c08/operation-failed", op.Kind), fmt.Sprintf("script op %d %v failed without any fault: %v", i, op, err), map[string]any{"script_seed": seed, "script": fmt.Sprint(script)})
+						for _, d := range cur.imgs {
+							_ = os.RemoveAll(d)
+						}
 						break
 					}
 					for k, p := range cur.pts {
-						fs := c08.CheckImage(cur.imgs[k], params(), before, after, op, p, rng)
-						_ = os.RemoveAll(cur.imgs[k])
-						r.Case(op.Kind+tag(op)+"|"+p.Class, true)
-						r.Count("crash_images_checked", 1)
-						r.Count("points_"+strings.SplitN(p.Class, "/", 2)[0], 1)
-						for _, fd := range fs {
-							r.Violation(fd.Sig, fd.What, map[string]any{"script_seed": seed, "ops": nOps, "op_index": i, "op": op.String(),
-								"point": p.Name, "script": fmt.Sprint(script), "before_tips": [2]int{len(before.Blocks) - 1, len(before.Filters) - 1},
-								"after_tips": [2]int{len(after.Blocks) - 1, len(after.Filters) - 1}})
+						imgDir, rngSeed := cur.imgs[k], (seed^0x5151)*4099+int64(len(recs))
+						checks <- func() {
+							fs, inc := (&c08.ImageCheck{Dir: imgDir, Params: params(), Before: before, After: after,
+								Rng: rand.New(rand.NewSource(rngSeed)),
+								Sig: c08.ScriptSig(op, p), Ctx: c08.ScriptCtx(op, p), BM: bmOpts, Stats: bmStats}).Run()
+							_ = os.RemoveAll(imgDir)
+							if inc != "" {
+								r.Inconclusive(inc)
+							}
+							r.Case(op.Kind+tag(op)+"|"+p.Class, true)
+							r.Count("crash_images_checked", 1)
+							r.Count("points_"+strings.SplitN(p.Class, "/", 2)[0], 1)
+							for _, fd := range fs {
+								r.Violation(fd.Sig, fd.What, map[string]any{"script_seed": seed, "ops": nOps, "op_index": i, "op": op.String(),
+									"point": p.Name, "script": fmt.Sprint(script), "before_tips": [2]int{len(before.Blocks) - 1, len(before.Filters) - 1},
+									"after_tips": [2]int{len(after.Blocks) - 1, len(after.Filters) - 1}})
+							}
 						}
 						recs = append(recs, pointRec{op, p, before, after})
 					}
@@ -174,13 +254,163 @@ func main() {
 			}
 		}(w)
 	}
-	for si := 0; si < nScripts; si++ {
-		jobs <- si
+	wg.Add(1)
+	go func() {
+		defer wg.Done()
+		for si := 0; si < nScripts; si++ {
+			jobs <- si
+		}
+		close(jobs)
+	}()
+
+	// ---- Family 2: the real header import under crashes -------------------
+	worlds := make([]*c14.World, c14.NumPresets())
+	{
+		errs := make([]error, len(worlds))
+		var wwg sync.WaitGroup
+		for p := range worlds {
+			wwg.Add(1)
+			go func(p int) {
+				defer wwg.Done()
+				worlds[p], errs[p] = c14.NewWorld(r.Seed, p, root)
+			}(p)
+		}
+		wwg.Wait()
+		for _, err := range errs {
+			if err != nil {
+				fmt.Fprintln(os.Stderr, "C08 import worlds:", err)
+				r.Broken("import worlds: " + err.Error())
+				r.Finish(12)
+			}
+		}
 	}
-	close(jobs)
+	type impRec struct {
+		op            c08.Op
+		pt            c08.Point
+		before, after *c08.Model
+	}
+	type imgJob struct {
+		prep *c08.ImportPrep
+		rec  impRec
+		img  string
+		seed int64
+		done *sync.WaitGroup
+	}
+	impRecs := map[int][]impRec{}
+	impSpecs := map[int]c14.Spec{}
+	ist := &c08.ImportStats{}
+	reportImp := func(kind string, prep *c08.ImportPrep, rec impRec, fs []c08.Finding, inc string, extra map[string]any) {
+		if inc != "" {
+			r.Inconclusive(inc)
+		}
+		for _, fd := range fs {
+			w := map[string]any{"import_case": prep.Spec, "params": prep.World.Name(), "store_call_index": rec.pt.Op,
+				"store_call": rec.op.String(), "point": rec.pt.Name,
+				"before_tips": [2]int{len(rec.before.Blocks) - 1, len(rec.before.Filters) - 1},
+				"after_tips":  [2]int{len(rec.after.Blocks) - 1, len(rec.after.Filters) - 1},
+				"reproduce":   fmt.Sprintf("VERIF_SEED=%d ./check C08 %s  (import case %d)", r.Seed, r.Tier, prep.Spec.Idx)}
+			for k, v := range extra {
+				w[k] = v
+			}
+			r.Violation(fd.Sig, kind+fd.What, w)
+		}
+	}
+	checkImp := func(j imgJob) {
+		rng := rand.New(rand.NewSource(j.seed))
+		fs, inc := c08.CheckImportImage(j.prep, j.rec.op, j.rec.before, j.rec.after, j.rec.pt, j.img, rng, bmStats, j.seed%bmCrashStateOneIn == 0, ist)
+		_ = os.RemoveAll(j.img)
+		r.Case(c08.ImportFingerprint(j.rec.op, j.rec.pt), true)
+		r.Count("import_crash_images_checked", 1)
+		r.Count("import_points_"+strings.SplitN(j.rec.pt.Class, "/", 2)[0], 1)
+		reportImp("", j.prep, j.rec, fs, inc, nil)
+		j.done.Done()
+	}
+	// Producers: a few imports at a time, each pausing inside the importer's
+	// store call while its images are handed to the checkers.
+	idxs := make(chan int)
+	for w := 0; w < min(workers, 4); w++ {
+		wg.Add(1)
+		go func() {
+			defer wg.Done()
+			for idx := range idxs {
+				sp := c08.GenImportSpec(r.Seed, idx, maxBatches)
+				world := worlds[sp.Preset%len(worlds)]
+				dir := filepath.Join(root, fmt.Sprintf("c08-imp-%d", idx))
+				prep, err := c08.PrepareImport(world, sp, dir)
+				if err != nil {
+					r.Inconclusive("import prepare: " + strings.SplitN(err.Error(), ":", 2)[0])
+					fmt.Fprintf(os.Stderr, "C08 import case %d: prepare: %v\n", idx, err)
+					_ = os.RemoveAll(dir)
+					continue
+				}
+				var recs []impRec
+				var pending sync.WaitGroup // the import files in dir are needed until every image is checked
+				nimg := 0
+				steps, points, ierr, pan := c08.RunImportCrashing(prep, -1, filepath.Join(root, fmt.Sprintf("c08-impimg-%d", idx)), func(st *c08.ImportStep) {
+					r.Count("import_store_calls_"+st.Op.Kind+tag(st.Op), 1)
+					if st.Note != "" {
+						r.Inconclusive("import step outside the file: " + st.Note)
+					}
+					for k, p := range st.Points {
+						rec := impRec{st.Op, p, st.Before, st.After}
+						if idx < keepImportRecs {
+							recs = append(recs, rec)
+						}
+						pending.Add(1)
+						j := imgJob{prep, rec, st.Images[k], r.Seed*7_000_003 + int64(idx)*100_003 + int64(nimg), &pending}
+						checks <- func() { checkImp(j) }
+						nimg++
+					}
+				})
+				switch {
+				case pan != "":
+					r.Inconclusive("uninterrupted import panicked")
+					fmt.Fprintf(os.Stderr, "C08 import case %d %+v: uninterrupted import panicked: %s\n", idx, prep.Spec, pan)
+				case ierr != nil:
+					// Not a crash-recovery observation: C14's subject.
+					r.Inconclusive("uninterrupted import refused a clean file")
+					fmt.Fprintf(os.Stderr, "C08 import case %d %+v: uninterrupted import failed: %v\n", idx, prep.Spec, ierr)
+				default:
+					if db, b, f, err := c08.OpenDir(dir, prep.Params); err != nil {
+						r.Inconclusive("stores do not reopen after the uninterrupted import")
+					} else {
+						got, err := c08.ReadModel(b, f)
+						c08.CloseAll(db, b, f)
+						if err != nil || len(got.Blocks) != len(prep.Final.Blocks) || len(got.Filters) != len(prep.Final.Filters) {
+							r.Inconclusive("uninterrupted import did not reach the expected final state")
+							fmt.Fprintf(os.Stderr, "C08 import case %d %+v: final state unexpected (err=%v)\n", idx, prep.Spec, err)
+						}
+					}
+					r.Count("import_cases", 1)
+					r.Count("import_store_calls", int64(steps))
+					r.Count("import_crash_points", int64(points))
+					r.Mark("import-shape|" + c08.ImportShape(&prep.Spec))
+				}
+				mu.Lock()
+				if idx < keepImportRecs {
+					impRecs[idx] = recs
+					impSpecs[idx] = prep.Spec
+				}
+				mu.Unlock()
+				if idx < 3 {
+					r.Sample(map[string]any{"import_case": prep.Spec, "params": world.Name(), "store_calls": steps, "crash_points": points})
+				}
+				pending.Wait()
+				_ = os.RemoveAll(dir)
+			}
+		}()
+	}
+	for idx := 0; idx < nImports; idx++ {
+		idxs <- idx
+	}
+	close(idxs)
 	wg.Wait()
+	close(checks)
+	cwg.Wait()
+
+	phase("1_scripts_and_imports_done")
 	r.Exhaustive(true)
-	r.Set("exhaustive_scope", "every crash point of every primitive of every generated script (in-process images); SIGKILL cases are a sample of the same points")
+	r.Set("exhaustive_scope", "every crash point of every primitive of every generated script and every crash point announced during every generated import (in-process images); SIGKILL cases are a sample of the same points")
 
 	// Real SIGKILL at enumerated points: the child runs the same script and
 	// kills itself at point k; the parent opens what is left.
@@ -190,6 +420,7 @@ func main() {
 		k    int
 	}
 	var kcases []kcase
+	kseen := map[kcase]bool{}
 	krng := rand.New(rand.NewSource(r.Seed ^ 0x6b696c6c))
 	var seeds []int64
 	for si := 0; si < nScripts; si++ {
@@ -198,7 +429,11 @@ func main() {
 	for i := 0; i < nKill; i++ {
 		s := seeds[krng.Intn(len(seeds))]
 		if n := len(pointsByScript[s]); n > 0 {
-			kcases = append(kcases, kcase{s, krng.Intn(n)})
+			// (duplicates would share a directory name: drop them)
+			if kc := (kcase{s, krng.Intn(n)}); !kseen[kc] {
+				kseen[kc] = true
+				kcases = append(kcases, kc)
+			}
 		}
 	}
 	kjobs := make(chan kcase)
@@ -227,7 +462,11 @@ func main() {
 					continue
 				}
 				rec := pointsByScript[kc.seed][kc.k]
-				fs := c08.CheckImage(dir, params(), rec.before, rec.after, rec.op, rec.pt, rng)
+				fs, inc := (&c08.ImageCheck{Dir: dir, Params: params(), Before: rec.before, After: rec.after, Rng: rng,
+					Sig: c08.ScriptSig(rec.op, rec.pt), Ctx: c08.ScriptCtx(rec.op, rec.pt), BM: bmOpts, Stats: bmStats}).Run()
+				if inc != "" {
+					r.Inconclusive(inc)
+				}
 				r.Case("sigkill|"+rec.op.Kind+tag(rec.op)+"|"+rec.pt.Class, true)
 				r.Count("sigkill_cases", 1)
 				for _, fd := range fs {
@@ -242,6 +481,73 @@ func main() {
 	}
 	close(kjobs)
 	wg.Wait()
+
+	phase("2_script_sigkills_done")
+
+	// Real SIGKILL inside an import: the parent prepares the directory
+	// (pre-filled stores, import files), the child runs the real import with
+	// the hooks installed and kills itself at point k.
+	type ikcase struct{ idx, k int }
+	var ikcases []ikcase
+	ikseen := map[ikcase]bool{}
+	ikrng := rand.New(rand.NewSource(r.Seed ^ 0x696d706b))
+	for i := 0; i < nKillImp; i++ {
+		idx := ikrng.Intn(min(nImports, keepImportRecs))
+		if n := len(impRecs[idx]); n > 0 {
+			kc := ikcase{idx, ikrng.Intn(n)}
+			if !ikseen[kc] {
+				ikseen[kc] = true
+				ikcases = append(ikcases, kc)
+			}
+		}
+	}
+	ikjobs := make(chan ikcase)
+	for w := 0; w < workers; w++ {
+		wg.Add(1)
+		go func(w int) {
+			defer wg.Done()
+			for kc := range ikjobs {
+				sp := impSpecs[kc.idx]
+				world := worlds[sp.Preset%len(worlds)]
+				dir := filepath.Join(root, fmt.Sprintf("c08-impkill-%d-%d", kc.idx, kc.k))
+				prep, err := c08.PrepareImport(world, sp, dir)
+				if err != nil {
+					r.Inconclusive("import prepare (kill case)")
+					_ = os.RemoveAll(dir)
+					continue
+				}
+				cmd := exec.Command(exe, "-tier", r.Tier, "-seed", fmt.Sprint(r.Seed), "-child-import-dir", dir,
+					"-child-import-preset", fmt.Sprint(sp.Preset), "-child-import-batch", fmt.Sprint(prep.Batch),
+					"-child-kill", fmt.Sprint(kc.k))
+				var errb bytes.Buffer
+				cmd.Stderr = &errb
+				err = cmd.Run()
+				ws, _ := cmd.ProcessState.Sys().(syscall.WaitStatus)
+				if err == nil || !ws.Signaled() || ws.Signal() != syscall.SIGKILL {
+					r.Inconclusive("import kill child did not die by SIGKILL")
+					fmt.Fprintf(os.Stderr, "import kill child %v: err=%v stderr=%s\n", kc, err, errb.String())
+					_ = os.RemoveAll(dir)
+					continue
+				}
+				rec := impRecs[kc.idx][kc.k]
+				rng := rand.New(rand.NewSource(r.Seed*9_000_011 + int64(kc.idx)*100_003 + int64(kc.k)))
+				fs, inc := c08.CheckImportImage(prep, rec.op, rec.before, rec.after, rec.pt, dir, rng, bmStats, kc.k%bmCrashStateOneIn == 0, ist)
+				r.Case("sigkill|"+c08.ImportFingerprint(rec.op, rec.pt), true)
+				r.Count("import_sigkill_cases", 1)
+				reportImp("[real SIGKILL] ", prep, rec, fs, inc, map[string]any{"kill_point": kc.k})
+				_ = os.RemoveAll(dir)
+			}
+		}(w)
+	}
+	for _, kc := range ikcases {
+		ikjobs <- kc
+	}
+	close(ikjobs)
+	wg.Wait()
+	for _, w := range worlds {
+		w.Remove()
+	}
+	phase("3_import_sigkills_done")
 
 	// Random-instant kills from the parent (thorough): hits inside bbolt
 	// commits and between any two instructions.
@@ -294,7 +600,12 @@ func main() {
 					if last[0] == 'e' {
 						before = after
 					}
-					fs := c08.CheckImage(dir, params(), before, after, op, c08.Point{Op: oi, Name: "random-instant", Class: "random-instant"}, rng)
+					rpt := c08.Point{Op: oi, Name: "random-instant", Class: "random-instant"}
+					fs, inc := (&c08.ImageCheck{Dir: dir, Params: params(), Before: before, After: after, Rng: rng,
+						Sig: c08.ScriptSig(op, rpt), Ctx: c08.ScriptCtx(op, rpt), BM: bmOpts, Stats: bmStats}).Run()
+					if inc != "" {
+						r.Inconclusive(inc)
+					}
 					r.Case("random|"+op.Kind+tag(op), true)
 					r.Count("random_instant_kills", 1)
 					for _, fd := range fs {
@@ -310,8 +621,22 @@ func main() {
 		close(rjobs)
 		wg.Wait()
 	}
+	r.Set("import_check_worker_seconds", map[string]float64{"total": float64(ist.TTotal) / 1e9, "of_which_reimport": float64(ist.TReimport) / 1e9,
+		"of_which_crash_state_block_manager_sample": float64(ist.TSecond) / 1e9})
+	r.Count("import_reimports", ist.Reimports)
+	r.Count("import_reimports_completed", ist.ReimportsOK)
+	r.Count("import_headers_compared_with_file", ist.HeadersCompared)
+	{
+		c, h, t := bmStats.Snapshot()
+		r.Count("bm_constructed", c)
+		r.Count("bm_next_header_handled", h)
+		r.Count("bm_tip_advanced", t)
+		r.Count("bm_import_crash_state_restarts", ist.CrashStateBM)
+		r.Set("bm_sample_one_in", map[string]int{"script_images_one_header_restart": 1, "import_images_construct_on_crash_state": 1,
+			"import_images_one_header_restart_after_reimport": 1, "import_images_one_header_restart_on_crash_state": bmCrashStateOneIn})
+	}
 	_ = os.RemoveAll(tmpl)
-	r.Finish(12)
+	r.Finish(40)
 }
 
 func tag(op c08.Op) string {
